@@ -39,6 +39,8 @@ def gen_data(rs, kind, n, d):
         j = rs.randint(d); X[:, j] = X[0, j]                             # constant column
     if rs.rand() < 0.3:                                                  # constant inside one cluster only
         j = rs.randint(d); X[z == 0, j] = X[0, j]
+    if rs.rand() < 0.25:                                                 # only a handful of distinct rows
+        X = X[rs.randint(0, min(n, 4), size=n)]
     for j in range(d):                                                   # keep discrete values inside their domains
         if isinstance(doms[j], list):
             X[:, j] = np.clip(X[:, j], min(doms[j]), max(doms[j]))
@@ -62,6 +64,8 @@ class Recorder:
         if self.real_rows is None or (self.adv and self.rs.rand() < 0.35):
             k = int(self.rs.randint(1, 4))
             c = self.rs.randint(0, k, size=len(data)) if self.rs.rand() < 0.7 else np.zeros(len(data), dtype=np.int64)
+            if self.rs.rand() < 0.3:
+                c = np.array([0, 2, 5])[c]          # label sets with gaps (a clusterer may leave ids unused)
         else:
             c = np.asarray(self.real_rows(data, distributions, domains, random_state, **kw))
         self.splits.append(("rows", np.asarray(c).tolist())); return np.asarray(c)
@@ -138,6 +142,7 @@ def run_case(rs, cfg):
     try:
         root = LS.learn_spn(X, dists, doms, learn_leaf=rec.leaf, split_rows=rec.rows, split_cols=rec.cols,
                             min_rows_slice=cfg["min_rows"], min_cols_slice=cfg["min_cols"],
+                            split_rows_kwargs=(dict(n=cfg.get("rows_n", 2)) if cfg["rows"] != "random" else dict()),
                             random_state=int(rs.randint(2 ** 31 - 1)), verbose=False)
         err = None
     except Exception as e:
@@ -175,7 +180,7 @@ def configs(rs, n, tier):
         leaf = "mle" if kind != "bin" or i % 3 else "binary-clt"
         if kind == "cont" and i % 4 == 0:
             leaf = "isotonic"
-        out.append(dict(kind=kind, rows=r, cols=c, leaf=leaf, adv=bool(i % 3 == 0),
+        out.append(dict(kind=kind, rows=r, cols=c, leaf=leaf, adv=bool(i % 3 == 0), rows_n=int([2, 2, 3, 4, 5][(i // 3) % 5]),
                         n=int(rs.choice([5, 12, 40, 120, 300 if tier == "thorough" else 150])), d=int(rs.randint(2, 7)),
                         min_rows=int(rs.choice([1, 4, 16, 40])), min_cols=int(rs.choice([1, 2, 3]))))
     return out
